@@ -287,4 +287,7 @@ func VerifC15_SubsetHealth() {
 
 // VerifC05_SubsetHealth: the same exploration counted for C05 (a healthy
 // member is returned whenever the applicable host set has one).
-func VerifC05_SubsetHealth() { VerifC15_SubsetHealth() }
+func VerifC05_SubsetHealth() {
+	VerifC15_SubsetHealth()
+	verif.Cover("subset-health")
+}
